@@ -200,9 +200,11 @@ def padCombine (bp pp : Nat × Nat) : Outcome String (Nat × Nat) :=
   need "map:TpcPadRow-unwrap" (decide (bp.2 * pwbPadRows + pp.2 < tpcPadRows)) <|
   .ok (bp.1 * pwbPadColumns + pp.1, bp.2 * pwbPadRows + pp.2)
 
-/-- `TpcPadPosition::try_new(run_number, board_id, after_id, pad_channel_id)` → (column, row). -/
-def padPosition (run board chip ch : Nat) : Outcome String (Nat × Nat) :=
-  match pwbPosition run board with
+/-- `TpcPadPosition::try_new` for a given board-position lookup `g`: `TpcPwbPosition::try_new(..)?`,
+then `PwbPadPosition::try_new(..)?`, then `TpcPadPosition::new`. -/
+def padCompose (g : Nat → Outcome String (Nat × Nat)) (board chip ch : Nat) :
+    Outcome String (Nat × Nat) :=
+  match g board with
   | .err e => .err e
   | .panic s => .panic s
   | .ok bp =>
@@ -210,6 +212,10 @@ def padPosition (run board chip ch : Nat) : Outcome String (Nat × Nat) :=
     | .err e => .err e
     | .panic s => .panic s
     | .ok pp => padCombine bp pp
+
+/-- `TpcPadPosition::try_new(run_number, board_id, after_id, pad_channel_id)` → (column, row). -/
+def padPosition (run board chip ch : Nat) : Outcome String (Nat × Nat) :=
+  padCompose (pwbPosition run) board chip ch
 
 /-! ### Wires and pad columns (physics/src/matching.rs), on `usize` -/
 
